@@ -4,13 +4,16 @@ import (
 	"bytes"
 	"encoding/json"
 	"fmt"
+	"go/ast"
 	"go/format"
 	"go/parser"
+	"go/scanner"
 	"go/token"
 	"math/rand"
 	"os"
 	"path/filepath"
 	"regexp"
+	"sort"
 	"strings"
 
 	"github.com/dave/dst"
@@ -26,6 +29,23 @@ type c03Input struct {
 	Variant string `json:"variant"`
 	Managed bool   `json:"managed,omitempty"` // decorate with the goast identifier resolver, print with import management (accurate package names)
 	Dir     bool   `json:"dir,omitempty"`     // the file is parsed as one of two files of a directory (ParseDir); the partner holds raw strings and a block comment over many lines
+	// Entry: the print entry point ("" = decorator.Fprint, or Restorer.Fprint when Managed / Dir); see c03Entries.
+	// With Managed the restorer is NewRestorerWithImports and the decorator resolves identifiers.
+	Entry string `json:"entry,omitempty"`
+	// Before, After (Entry FileRestorer-reused): the sources restored with the same FileRestorer before / after
+	// Src; all files are printed only after the last one has been restored
+	Before []string `json:"before,omitempty"`
+	After  []string `json:"after,omitempty"`
+}
+
+// the library's ways of printing a decorated file besides decorator.Fprint: every one of them is
+// "restore the file, hand it to go/format", so the property holds for each of them alike
+var c03Entries = []string{
+	"Restorer.Fprint",     // an explicit Restorer
+	"FileRestorer.Fprint", // Restorer.FileRestorer() (the way to set Name / Alias), printed by its own Fprint
+	// ONE FileRestorer restores several files into its FileSet with RestoreFile; the caller prints the
+	// ast.Files afterwards with format.Node (what Fprint does, file by file)
+	"FileRestorer-reused",
 }
 
 var c03Scratch string
@@ -76,6 +96,10 @@ func c03Variant(c *Ctx, src, variant string) string {
 		return selGaps(c.Rng, src)
 	case "blank3":
 		return strings.ReplaceAll(src, "\n\n", "\n\n\n")
+	case "upnum":
+		return upperNumbers(src)
+	case "revimports":
+		return reverseImportRuns(src)
 	case "dense":
 		// a block comment after every line that has no line comment, string or directive
 		var out []string
@@ -88,6 +112,78 @@ func c03Variant(c *Ctx, src, variant string) string {
 		return strings.Join(out, "\n")
 	}
 	return src
+}
+
+// upperNumbers: every number literal with its prefix and exponent letters in upper case (0X1F,
+// 0B1, 0O7, 1E3, 0X1P-2): accepted by the parser, put in lower case by gofmt
+func upperNumbers(src string) string {
+	fset := token.NewFileSet()
+	file := fset.AddFile("", -1, len(src))
+	var sc scanner.Scanner
+	bad := false
+	sc.Init(file, []byte(src), func(token.Position, string) { bad = true }, scanner.ScanComments)
+	var sb strings.Builder
+	last := 0
+	for {
+		pos, tok, lit := sc.Scan()
+		if tok == token.EOF {
+			break
+		}
+		if tok != token.INT && tok != token.FLOAT && tok != token.IMAG {
+			continue
+		}
+		up := lit
+		switch {
+		case strings.HasPrefix(lit, "0x"):
+			up = "0X" + strings.ReplaceAll(lit[2:], "p", "P")
+		case strings.HasPrefix(lit, "0b"):
+			up = "0B" + lit[2:]
+		case strings.HasPrefix(lit, "0o"):
+			up = "0O" + lit[2:]
+		case !strings.HasPrefix(lit, "0X"):
+			up = strings.ReplaceAll(lit, "e", "E")
+		}
+		off := file.Offset(pos)
+		sb.WriteString(src[last:off])
+		sb.WriteString(up)
+		last = off + len(lit)
+	}
+	if bad {
+		return src
+	}
+	sb.WriteString(src[last:])
+	return sb.String()
+}
+
+var importSpecLine = regexp.MustCompile(`^\s*(?:[A-Za-z_.][A-Za-z0-9_]*\s+)?"[^"]*"\s*(?://.*)?$`)
+
+// reverseImportRuns: inside parenthesised import declarations every run of consecutive one-line
+// specs (each with its line comment) in reverse order: unsorted unless the run has one spec
+func reverseImportRuns(src string) string {
+	lines := strings.Split(src, "\n")
+	in := false
+	for i := 0; i < len(lines); i++ {
+		t := strings.TrimSpace(strings.TrimSuffix(lines[i], "\r"))
+		if !in {
+			in = t == "import ("
+			continue
+		}
+		if t == ")" {
+			in = false
+			continue
+		}
+		j := i
+		for j < len(lines) && importSpecLine.MatchString(strings.TrimSuffix(lines[j], "\r")) {
+			j++
+		}
+		for a, b := i, j-1; a < b; a, b = a+1, b-1 {
+			lines[a], lines[b] = lines[b], lines[a]
+		}
+		if j > i {
+			i = j - 1
+		}
+	}
+	return strings.Join(lines, "\n")
 }
 
 func normComment(s string) string {
@@ -111,7 +207,8 @@ func c03Check(in c03Input) (key, what string) {
 		return
 	}
 	// the same text with those lines emptied must pass (or fail only through a recorded CRLF finding)
-	cleaned := c03Input{Src: wsOnlyLine.ReplaceAllString(in.Src, "$1"), Variant: in.Variant, Managed: in.Managed, Dir: in.Dir}
+	cleaned := in
+	cleaned.Src = wsOnlyLine.ReplaceAllString(in.Src, "$1")
 	if k2, _ := c03CheckLineEndings(cleaned); k2 == "" || strings.HasPrefix(k2, "crlf-") {
 		return "whitespace-only-blank-line-lost", "only with white space on blank lines (the same text with those lines emptied passes): " + what
 	}
@@ -123,11 +220,13 @@ func c03CheckLineEndings(in c03Input) (key, what string) {
 	if key == "" || !strings.Contains(in.Src, "\r\n") || strings.HasPrefix(key, "crlf-") {
 		return
 	}
-	lf := c03Input{Src: strings.ReplaceAll(in.Src, "\r\n", "\n"), Variant: in.Variant, Managed: in.Managed, Dir: in.Dir}
+	lf := in
+	lf.Src = strings.ReplaceAll(in.Src, "\r\n", "\n")
 	if k2, _ := c03CheckRaw(lf); k2 == "" {
 		// the recorded defect is about BLANK lines (the decorator peeks one byte ahead and does not see
 		// "\r\n\r\n"): with the empty lines -- and only those -- ended by a bare "\n" it must pass
-		mixed := c03Input{Src: crlfEmptyLine.ReplaceAllString(in.Src, "\n"), Variant: in.Variant, Managed: in.Managed, Dir: in.Dir}
+		mixed := in
+		mixed.Src = crlfEmptyLine.ReplaceAllString(in.Src, "\n")
 		if k3, w3 := c03CheckRaw(mixed); k3 != "" {
 			return "c03-crlf", "CRLF only, and not through blank lines (fails with LF-terminated empty lines too): " + w3
 		}
@@ -138,38 +237,155 @@ func c03CheckLineEndings(in c03Input) (key, what string) {
 
 var crlfEmptyLine = regexp.MustCompile(`(?m)^\r\n`)
 
-// sameImports: the two sources import the same (name, path) pairs in the same order
+// sameImports: the two sources import the same (name, path) pairs (as multisets: go/format sorts
+// the specs of a parenthesised import declaration, and the order of the output's import paths is
+// judged with the other tokens against gofmt(input))
 func sameImports(a, b string) bool {
 	imps := func(src string) string {
 		f, err := parser.ParseFile(token.NewFileSet(), "", src, parser.ImportsOnly)
 		if err != nil {
 			return "?"
 		}
-		var sb strings.Builder
+		var specs []string
 		for _, is := range f.Imports {
+			n := ""
 			if is.Name != nil {
-				sb.WriteString(is.Name.Name)
+				n = is.Name.Name
 			}
-			sb.WriteString(" " + is.Path.Value + ";")
+			specs = append(specs, n+" "+is.Path.Value)
 		}
-		return sb.String()
+		sort.Strings(specs)
+		return strings.Join(specs, ";")
 	}
 	return imps(a) == imps(b)
 }
 
+// c03Decorate: the decorator of the pair (plain, or resolving identifiers with the goast resolver)
+func c03Decorate(src string, managed bool) (f *dst.File, err error, pm string) {
+	pm = safely(func() {
+		if managed {
+			f, err = decorator.NewDecoratorWithImports(token.NewFileSet(), "example.com/self", goastNew()).Parse(src)
+		} else {
+			f, err = decorator.NewDecorator(token.NewFileSet()).Parse(src)
+		}
+	})
+	return
+}
+
+// c03PrintEntry prints in.Src through the entry point in.Entry.  skip: the input is outside the
+// entry's scope (the goast resolver refuses the file, the import manager changed the imports).
+func c03PrintEntry(in c03Input) (out string, perr error, pm string, key, what string, skip bool) {
+	f, derr, dpm := c03Decorate(in.Src, in.Managed)
+	if dpm != "" {
+		return "", nil, "", "c03-panic", "decorating panicked: " + dpm, false
+	}
+	if derr != nil {
+		if in.Managed {
+			return "", nil, "", "", "", true
+		}
+		return "", nil, "", "c03-error", "Parse failed on a parseable file: " + derr.Error(), false
+	}
+	var res *decorator.Restorer
+	if in.Managed {
+		names := accurateNames(in.Src)
+		for _, o := range append(append([]string{}, in.Before...), in.After...) {
+			for p, n := range accurateNames(o) {
+				names[p] = n
+			}
+		}
+		res = decorator.NewRestorerWithImports("example.com/self", guess.WithMap(names))
+	} else {
+		res = decorator.NewRestorer()
+	}
+	var buf bytes.Buffer
+	switch in.Entry {
+	case "Restorer.Fprint":
+		pm = safely(func() { perr = res.Fprint(&buf, f) })
+	case "FileRestorer.Fprint":
+		pm = safely(func() {
+			fr := res.FileRestorer()
+			fr.Name = "subject.go"
+			perr = fr.Fprint(&buf, f)
+		})
+	case "FileRestorer-reused":
+		fr := res.FileRestorer()
+		// the neighbours: restored with the same FileRestorer; one that the decorator or the restorer
+		// refuses is left out (it is the subject of an evaluation of its own)
+		neighbours := func(srcs []string, tag string) {
+			for i, o := range srcs {
+				nf, nerr, npm := c03Decorate(o, in.Managed)
+				if nerr != nil || npm != "" {
+					continue
+				}
+				fr.Name = fmt.Sprintf("%s%d.go", tag, i)
+				safely(func() { fr.RestoreFile(nf) })
+			}
+		}
+		neighbours(in.Before, "before")
+		var af *ast.File
+		pm = safely(func() {
+			fr.Name = "subject.go"
+			af, perr = fr.RestoreFile(f)
+		})
+		if pm != "" || perr != nil {
+			break
+		}
+		neighbours(in.After, "after")
+		// ... and only now printed, with the FileSet all the files were restored into
+		pm = safely(func() { perr = format.Node(&buf, fr.Fset, af) })
+	default:
+		return "", nil, "", "", "", true
+	}
+	out = buf.String()
+	if in.Managed && pm == "" && perr == nil && !sameImports(in.Src, out) {
+		return "", nil, "", "", "", true // the import manager changed the import declarations: C07's business
+	}
+	return
+}
+
+// the reference side is a function of the text alone: remembered for the last few texts, since one
+// text is printed through several entry points in a row
+type c03RefT struct {
+	parses bool
+	want   []byte
+	err    error
+}
+
+var c03Refs = map[string]*c03RefT{}
+
+func c03Ref(src string) *c03RefT {
+	if r, ok := c03Refs[src]; ok {
+		return r
+	}
+	if len(c03Refs) >= 8 {
+		c03Refs = map[string]*c03RefT{}
+	}
+	r := &c03RefT{}
+	if _, err := parser.ParseFile(token.NewFileSet(), "", src, parser.ParseComments); err == nil {
+		r.parses = true
+		r.want, r.err = format.Source([]byte(src))
+	}
+	c03Refs[src] = r
+	return r
+}
+
 func c03CheckRaw(in c03Input) (key, what string) {
-	if _, err := parser.ParseFile(token.NewFileSet(), "", in.Src, parser.ParseComments); err != nil {
+	ref := c03Ref(in.Src)
+	if !ref.parses || ref.err != nil {
 		return "", ""
 	}
-	want, err := format.Source([]byte(in.Src))
-	if err != nil {
-		return "", ""
-	}
+	want, err := ref.want, ref.err
 	var f *dst.File
 	var out string
 	var perr error
 	var pm string
-	if in.Managed {
+	if in.Entry != "" {
+		var skip bool
+		out, perr, pm, key, what, skip = c03PrintEntry(in)
+		if skip || key != "" {
+			return key, what
+		}
+	} else if in.Managed {
 		// import management on: qualified identifiers collapse and expand again; only files whose imports
 		// the restorer leaves alone (every import used, no path twice, nothing goast refuses)
 		dec := decorator.NewDecoratorWithImports(token.NewFileSet(), "example.com/self", goastNew())
@@ -293,8 +509,8 @@ func c03CheckRaw(in c03Input) (key, what string) {
 	// by the first pass and reformatted as a doc comment by the second.  dst's print is such a second
 	// pass (every comment is restored at its canonical column), so texts are judged against both.
 	cntFmt2 := map[string]int{}
-	if want2, err := format.Source(want); err == nil {
-		_, gcs2, _ := scanAll(string(want2))
+	if r2 := c03Ref(string(want)); r2.parses && r2.err == nil {
+		_, gcs2, _ := scanAll(string(r2.want))
 		for _, cm := range gcs2 {
 			cntFmt2[normComment(cm.Lit)]++
 		}
@@ -472,9 +688,20 @@ var c03Known = []string{
 	"package a\n\nimport (\n\t\"z\"\n\t\n\t\"a\"\n)\n",
 }
 
+// parseable but not in gofmt form in the ways go/format (not go/printer alone) puts right: unsorted
+// specs in parenthesised import declarations (with line comments, names, several runs, several
+// declarations) and number literals with upper-case prefixes and exponents; every import is used,
+// so that the import manager has nothing to add or remove
+var c03Ungofmt = []string{
+	"package a\n\nimport (\n\t\"strings\" // s\n\t\"fmt\" // f\n\t\"bytes\"\n)\n\nfunc f() { fmt.Println(strings.ToUpper(\"x\"), bytes.MinRead) }\n",
+	"package a\n\nimport (\n\tstr \"strconv\"\n\t\"os\"\n\n\t\"sort\" /* so */\n\t\"io\"\n)\n\nimport (\n\t\"unicode/utf8\"\n\t\"unicode\"\n)\n\n// F uses them all.\nfunc F() {\n\t_, _, _, _ = str.Itoa(1), os.Args, sort.Ints, io.EOF // all four\n\t_, _ = utf8.RuneError, unicode.MaxRune\n}\n",
+	"package a\n\nconst (\n\tH = 0XABCDEF // hex\n\tE = 1E3\n\tB = 0B101\n\tO = 0O17\n\tP = 0X1P-2 /* hex float */\n\tI = 1E3i\n\tS = 0X_1F\n\tM = 0X1.8P+1i\n\tD = 1_0E+1_0\n)\n\nvar x = [0X2]float64{0: 1E-3, 0B1: .5E1}\n\nfunc f(n int) int { return n<<0O3 + 0XfF }\n",
+	"package main\n\nimport (\n\t\"os\" // o\n\t\"math\" // m\n\t\"fmt\" // f\n)\n\n// main prints.\nfunc main() {\n\tfmt.Fprintln(os.Stderr, math.Pi*1E2, 0XFF) // numbers\n}\n",
+}
+
 func c03Prop(c *Ctx) {
 	c03Scratch = filepath.Join(c.Verif, ".build")
-	c.Res.Rule = "hand corpus + $GOROOT/src sample, each in the variants: as is, CRLF, BOM, space-indented, comments and blank lines sprinkled (mangled), every blank line doubled, a block comment after every line; compared with gofmt(input) on tokens and with the input on comment texts; non-trivial = distinct (file, variant)"
+	c.Res.Rule = "hand corpus + $GOROOT/src sample, each in the variants: as is, CRLF, BOM, space-indented, comments and blank lines sprinkled (mangled), every blank line doubled, a block comment after every line, number literals with upper-case prefixes and exponents, runs of import specs reversed; each printed through decorator.Fprint, Restorer.Fprint, FileRestorer.Fprint and RestoreFile + format.Node with one FileRestorer reused for several files that are printed afterwards, without and with import management; compared with gofmt(input) on tokens and with the input on comment texts; non-trivial = distinct (file, variant)"
 	var srcs []string
 	srcs = append(srcs, sinkSources...)
 	srcs = append(srcs, linkExtra...)
@@ -484,42 +711,71 @@ func c03Prop(c *Ctx) {
 			srcs = append(srcs, string(b))
 		}
 	}
-	variants := []string{"asis", "crlf", "bom", "spaces", "mangled", "blank3", "dense", "selgaps"}
+	variants := []string{"asis", "crlf", "bom", "spaces", "mangled", "blank3", "dense", "selgaps", "upnum", "revimports"}
 	srcs = append(srcs, c08Sources...)
-	for _, src := range srcs {
-		for _, v := range variants {
+	srcs = append(srcs, c03Ungofmt...)
+	// the files a reused FileRestorer restores before and after the subject: hand corpus files with comments
+	var pool []string
+	for _, p := range append(append([]string{}, c03Ungofmt...), sinkSources...) {
+		if strings.Contains(p, "//") || strings.Contains(p, "/*") {
+			pool = append(pool, p)
+		}
+	}
+	eval := func(in c03Input, label string) bool {
+		c.Res.Evaluations++
+		c.Res.hist("c03-variant", label)
+		if key, what := c03Check(in); key != "" {
+			in.Src = clipKeep(in.Src)
+			c.Res.fail(key, what, in)
+			return true
+		}
+		return false
+	}
+	for si, src := range srcs {
+		for vi, v := range variants {
 			in := c03Input{Src: c03Variant(c, src, v), Variant: v}
-			c.Res.Evaluations++
-			c.Res.seen(fmt.Sprint(len(src), v, src[:min(50, len(src))]))
-			c.Res.hist("c03-variant", v)
-			if key, what := c03Check(in); key != "" {
-				in.Src = clipKeep(in.Src)
-				c.Res.fail(key, what, in)
+			if (v == "upnum" || v == "revimports") && in.Src == src {
+				continue // no number literal / no run of import specs to change: the same text as "asis"
 			}
+			c.Res.seen(fmt.Sprint(len(src), v, src[:min(50, len(src))]))
+			eval(in, v)
 			// the same text as one of two files of a directory (ParseDir), twice: the order in which the files
 			// of a package are decorated follows map iteration
 			if v == "asis" || v == "blank3" {
 				for rep := 0; rep < 2; rep++ {
 					in2 := in
 					in2.Dir = true
-					c.Res.Evaluations++
-					c.Res.hist("c03-variant", v+"+directory")
-					if key, what := c03Check(in2); key != "" {
-						in2.Src = clipKeep(in2.Src)
-						c.Res.fail(key, what, in2)
+					if eval(in2, v+"+directory") {
 						break
 					}
 				}
 			}
-			// the same text through the import-managing pair (files with imports; three variants)
-			if (v == "asis" || v == "selgaps" || v == "mangled") && strings.Contains(src, "import") {
-				in.Managed = true
-				c.Res.Evaluations++
+			// the same text through the import-managing pair (files with imports; five variants)
+			managed := (v == "asis" || v == "selgaps" || v == "mangled" || v == "upnum" || v == "revimports") && strings.Contains(src, "import")
+			if managed {
+				in3 := in
+				in3.Managed = true
 				c.Res.seen(fmt.Sprint(len(src), v, "managed", src[:min(50, len(src))]))
-				c.Res.hist("c03-variant", v+"+import-management")
-				if key, what := c03Check(in); key != "" {
-					in.Src = clipKeep(in.Src)
-					c.Res.fail(key, what, in)
+				eval(in3, v+"+import-management")
+			}
+			// the same text through the other print entry points, without and with import management: all of
+			// them for the text as it is and for the two variants that only go/format (not go/printer alone)
+			// normalises, one of them in turn for the other variants
+			for ei, e := range c03Entries {
+				if v != "asis" && v != "upnum" && v != "revimports" && ei != (si+vi)%len(c03Entries) {
+					continue
+				}
+				in4 := in
+				in4.Entry = e
+				if e == "FileRestorer-reused" {
+					in4.Before = []string{pool[si%len(pool)]}
+					in4.After = []string{pool[(si+1)%len(pool)], pool[(si+3)%len(pool)]}
+				}
+				c.Res.seen(fmt.Sprint(len(src), v, e, src[:min(50, len(src))]))
+				eval(in4, v+"+"+e)
+				if managed && e != "Restorer.Fprint" { // (Restorer.Fprint with import management is the managed evaluation above)
+					in4.Managed = true
+					eval(in4, v+"+"+e+"+import-management")
 				}
 			}
 		}
